@@ -2,3 +2,4 @@ import Proofs.Browser
 import Proofs.Diag
 import Proofs.XReal
 import Proofs.Bonferroni
+import Proofs.DepGraph
